@@ -122,22 +122,25 @@ Qed.
 Lemma apply_writes_app c a b : apply_writes c (a ++ b) = apply_writes (apply_writes c a) b.
 Proof. unfold apply_writes. apply fold_left_app. Qed.
 
-Definition offs_ge (F : N) (ws : list (N * bytes)) : Prop := Forall (fun w => F <= fst w) ws.
+Definition offs_ge (F : N) (ws : list pw) : Prop := Forall (fun w => F <= pw_off w) ws.
 
-Lemma apply_writes_len c ws : len c <= len (apply_writes c ws).
+Lemma apply1_prefix F c w : F <= pw_off w -> F <= len c ->
+  take F (apply1 c w) = take F c /\ F <= len (apply1 c w).
 Proof.
-  revert c; induction ws as [|w ws IH]; intros c; simpl; [lia|].
-  specialize (IH (wr c (fst w) (snd w))).
-  destruct (len_wr_ge c (fst w) (snd w)) as [Hl|[Hl _]]; lia.
+  destruct w as [o d|n]; cbn [apply1 pw_off]; intros Ho Hc.
+  - split; [apply take_wr_below; auto|].
+    destruct (len_wr_ge c o d) as [Hl|[Hl _]]; lia.
+  - split; [apply take_take; auto|]. rewrite len_take. lia.
 Qed.
 
+(* nothing below F is touched by operations at or above F, and the file stays at least F long *)
 Lemma apply_writes_prefix F c ws :
-  offs_ge F ws -> F <= len c -> take F (apply_writes c ws) = take F c.
+  offs_ge F ws -> F <= len c -> take F (apply_writes c ws) = take F c /\ F <= len (apply_writes c ws).
 Proof.
-  revert c; induction ws as [|w ws IH]; intros c Hf Hc; simpl; auto.
-  inversion Hf; subst. rewrite IH; auto.
-  - apply take_wr_below; auto.
-  - destruct (len_wr_ge c (fst w) (snd w)) as [Hl|[Hl _]]; lia.
+  revert c; induction ws as [|w ws IH]; intros c Hf Hc; cbn [apply_writes fold_left]; [split; auto|].
+  inversion Hf; subst. destruct (apply1_prefix F c w) as (E1 & L1); auto.
+  fold (apply_writes (apply1 c w) ws). destruct (IH (apply1 c w)) as (E2 & L2); auto.
+  split; [congruence|auto].
 Qed.
 
 Lemma offs_ge_firstn F k ws : offs_ge F ws -> offs_ge F (firstn k ws).
@@ -152,44 +155,52 @@ Proof. unfold offs_ge. intros. apply Forall_app; auto. Qed.
 Lemma offs_ge_weaken F G ws : G <= F -> offs_ge F ws -> offs_ge G ws.
 Proof. unfold offs_ge. intros Hle Hf. eapply Forall_impl; [|exact Hf]. simpl. intros; lia. Qed.
 
-(* ---- crash images ---- *)
-Lemma image_writes_ge F f k t :
-  offs_ge F (pending f) ->
-  offs_ge F (firstn k (pending f) ++
-             match nth_error (pending f) k with Some w => [(fst w, take t (snd w))] | None => [] end).
+Lemma offs_ge_sub F a b : sub_trunc a b -> offs_ge F a -> offs_ge F b.
 Proof.
-  intros Hf. apply offs_ge_app. apply offs_ge_firstn; auto.
-  destruct (nth_error (pending f) k) as [w|] eqn:E; [|constructor].
-  constructor; [|constructor]. simpl.
-  unfold offs_ge in Hf. rewrite Forall_forall in Hf. apply Hf. eapply nth_error_In; eauto.
+  unfold offs_ge. induction 1; intros Hf; auto; inversion Hf; subst; auto.
+Qed.
+
+Lemma sub_trunc_refl a : sub_trunc a a.
+Proof. induction a; constructor; auto. Qed.
+
+(* ---- crash images ---- *)
+Lemma prefix_torn_ge F ws k t : offs_ge F ws -> offs_ge F (prefix_torn ws k t).
+Proof.
+  intros Hf. unfold prefix_torn. apply offs_ge_app. apply offs_ge_firstn; auto.
+  destruct (nth_error ws k) as [[o d|n]|] eqn:E; try constructor; [|constructor].
+  cbn [pw_off]. unfold offs_ge in Hf. rewrite Forall_forall in Hf.
+  apply (Hf (PW o d)). eapply nth_error_In; eauto.
 Qed.
 
 Lemma crash_image_prefix F f img :
   offs_ge F (pending f) -> F <= len (durable f) -> crash_image f img ->
-  take F img = take F (durable f) /\ len (durable f) <= len img.
+  take F img = take F (durable f) /\ F <= len img.
 Proof.
-  intros Hf Hc [k [t ->]]. unfold image_of. split.
-  - apply apply_writes_prefix; auto. apply image_writes_ge; auto.
-  - apply apply_writes_len.
+  intros Hf Hc (k & t & ws & Hs & ->).
+  apply apply_writes_prefix; auto. eapply offs_ge_sub; eauto. apply prefix_torn_ge; auto.
 Qed.
 
 Lemma crash_image_nopending f img : pending f = [] -> crash_image f img -> img = durable f.
 Proof.
-  intros E [k [t ->]]. unfold image_of. rewrite E. destruct k; reflexivity.
+  intros E (k & t & ws & Hs & ->). rewrite E in Hs. unfold prefix_torn in Hs.
+  destruct k; cbn in Hs; inversion Hs; reflexivity.
 Qed.
 
 Lemma crash_image_durable f : crash_image f (durable f).
 Proof.
-  exists 0%nat, 0. unfold image_of. simpl.
-  destruct (pending f) as [|w r]; simpl; auto. rewrite wr_nil. reflexivity.
+  exists 0%nat, 0. unfold prefix_torn. cbn [firstn app].
+  destruct (pending f) as [|[o d|n] r]; cbn [nth_error].
+  - exists []. split; [constructor|reflexivity].
+  - exists [PW o (take 0 d)]. split; [apply sub_trunc_refl|]. cbn. rewrite wr_nil. reflexivity.
+  - exists []. split; [constructor|reflexivity].
 Qed.
 
 Lemma crash_image_os f : crash_image f (os_view f).
 Proof.
-  exists (length (pending f)), 0. unfold image_of, os_view.
+  exists (length (pending f)), 0, (pending f). unfold prefix_torn, os_view.
   rewrite firstn_all.
   assert (E: nth_error (pending f) (length (pending f)) = None) by (apply nth_error_None; lia).
-  rewrite E, app_nil_r. reflexivity.
+  rewrite E, app_nil_r. split; [apply sub_trunc_refl|reflexivity].
 Qed.
 
 (* ---- file operations and the views ---- *)
@@ -211,7 +222,6 @@ Qed.
 Lemma buf_flushn f n : buf (f_flushn f n) = drop n (buf f).
 Proof.
   unfold f_flushn. destruct (take n (buf f)) as [|x d] eqn:E; simpl; auto.
-  (* take n buf = [] : either n = 0 or buf = [] *)
   destruct (buf f) as [|y b] eqn:Eb; [nat_ify; rewrite skipn_nil; reflexivity|].
   nat_ify. destruct (N.to_nat n); simpl in *; [reflexivity|discriminate].
 Qed.
@@ -293,42 +303,58 @@ Proof.
   rewrite len_lview by auto. lia.
 Qed.
 
-(* setoffset *)
-Lemma f_setoffset_spec f o g : wf f -> f_setoffset f o = Some g ->
-  o <= f_offset f /\ wf g /\ f_offset g = o /\ durable g = durable f /\ pending g = pending f /\
+(* setoffset (keep = true: preallocated file, the rewind does not truncate) *)
+Lemma f_setoffset_spec keep f o g : wf f -> f_setoffset_gen keep f o = Some g ->
+  o <= f_offset f /\ wf g /\ f_offset g = o /\ durable g = durable f /\
+  (bufoff f <= o -> pending g = pending f) /\
+  (o < bufoff f -> pending g = if keep then pending f else pending f ++ [PT o]) /\
   (o <= len (lview f) -> take o (lview g) = take o (lview f)) /\
   (bufoff f <= o -> bufoff g = bufoff f) /\ (o < bufoff f -> bufoff g = o) /\
-  len (os_view f) <= len (lview g) /\ (buf f = [] -> buf g = []).
+  (buf f = [] -> buf g = []) /\
+  (forall F, offs_ge F (pending f) -> F <= o -> offs_ge F (pending g)).
 Proof.
-  intros Hw. unfold f_setoffset.
+  intros Hw. unfold f_setoffset_gen.
   destruct (N.ltb_spec (f_offset f) o); [discriminate|].
   destruct (N.leb_spec (bufoff f) o) as [Hbo|Hbo]; intros E; injection E as <-.
   - unfold f_offset in *. split; [lia|]. split; [exact Hw|]. simpl. rewrite len_take.
-    split; [lia|]. split; [reflexivity|]. split; [reflexivity|]. split; [|split; [auto|split; [lia|]]].
+    split; [lia|]. split; [reflexivity|]. split; [auto|]. split; [intros; lia|].
+    split; [|split; [auto|split; [lia|split]]].
     + intros _. unfold lview, os_view. simpl. fold (os_view f).
-      (* take o (wr os b (take (o-b) buf)) = take o (wr os b buf) *)
       rewrite <- (take_drop_id (o - bufoff f) (buf f)) at 2.
       rewrite <- wr_app by exact Hw.
       symmetry. rewrite take_wr_below; auto.
       * rewrite len_take. lia.
       * rewrite len_wr by exact Hw. rewrite len_take. lia.
-    + split. unfold lview, os_view. simpl. fold (os_view f). rewrite len_wr by exact Hw. lia.
-      intros ->. unfold take. apply firstn_nil.
-  - split; [lia|]. unfold wf in *. unfold os_view in *. simpl. split; [lia|].
-    unfold f_offset. simpl. rewrite len_nil. split; [lia|]. split; [reflexivity|]. split; [reflexivity|].
-    split; [|split; [lia|split; [auto|]]].
-    + intros _. unfold lview, os_view. simpl. rewrite wr_nil. symmetry. apply take_wr_below; lia.
-    + split; [|reflexivity]. unfold lview, os_view. simpl. rewrite wr_nil. lia.
+    + intros ->. unfold take. apply firstn_nil.
+    + auto.
+  - assert (Hos: o <= len (os_view f)) by (unfold wf in Hw; lia).
+    assert (Eos: os_view (mkFile (durable f) (if keep then pending f else pending f ++ [PT o]) o []) =
+                 if keep then os_view f else take o (os_view f)).
+    { unfold os_view. cbn [durable pending]. destruct keep; [reflexivity|].
+      rewrite apply_writes_app. reflexivity. }
+    split; [lia|]. split.
+    { unfold wf. rewrite Eos. cbn [bufoff]. destruct keep; [lia|rewrite len_take; lia]. }
+    unfold f_offset. cbn [bufoff buf durable pending]. rewrite len_nil.
+    split; [lia|]. split; [reflexivity|]. split; [intros; lia|]. split; [auto|].
+    split; [|split; [intros; lia|split; [auto|split; [auto|]]]].
+    + intros _. unfold lview. rewrite Eos. cbn [bufoff buf]. rewrite wr_nil.
+      fold (lview f). unfold lview at 2.
+      destruct keep.
+      * symmetry. apply take_wr_below; lia.
+      * rewrite take_take by lia. symmetry. apply take_wr_below; lia.
+    + intros F Hf HF. destruct keep; [exact Hf|]. apply offs_ge_app; auto.
+      constructor; [cbn; lia|constructor].
 Qed.
 
 (* ---- streams of consecutive writes ---- *)
 Lemma stream_app o a b : stream_from o (a ++ b) <-> stream_from o a /\ stream_from (o + len (concat_w a)) b.
 Proof.
-  revert o; induction a as [|w a IH]; intros o; simpl.
-  - unfold concat_w; simpl. rewrite len_nil, N.add_0_r. tauto.
-  - rewrite IH. unfold concat_w; simpl. rewrite len_app.
-    replace (o + len (snd w) + len (concat (map snd a))) with (o + (len (snd w) + len (concat (map snd a)))) by lia.
+  revert o; induction a as [|[o' d|n] a IH]; intros o; cbn [app stream_from].
+  - unfold concat_w; cbn. rewrite len_nil, N.add_0_r. tauto.
+  - rewrite IH. unfold concat_w; cbn [map pw_data concat]. rewrite len_app.
+    replace (o + len d + len (concat (map pw_data a))) with (o + (len d + len (concat (map pw_data a)))) by lia.
     tauto.
+  - tauto.
 Qed.
 
 Lemma concat_w_app a b : concat_w (a ++ b) = concat_w a ++ concat_w b.
@@ -337,51 +363,96 @@ Proof. unfold concat_w. rewrite map_app, concat_app. reflexivity. Qed.
 Lemma apply_stream c o ws : stream_from o ws -> o <= len c ->
   apply_writes c ws = wr c o (concat_w ws).
 Proof.
-  revert c o; induction ws as [|w ws IH]; intros c o Hs Ho; simpl.
-  - unfold concat_w; simpl. rewrite wr_nil. reflexivity.
-  - destruct Hs as [E Hs]. rewrite E. rewrite (IH _ _ Hs).
-    + unfold concat_w; simpl. apply wr_app; auto.
+  revert c o; induction ws as [|[o' d|n] ws IH]; intros c o Hs Ho; cbn [apply_writes fold_left stream_from] in *.
+  - unfold concat_w; cbn. rewrite wr_nil. reflexivity.
+  - destruct Hs as [E Hs]. subst o'. fold (apply_writes (apply1 c (PW o d)) ws). cbn [apply1].
+    rewrite (IH _ _ Hs).
+    + unfold concat_w; cbn [map pw_data concat]. apply wr_app; auto.
     + rewrite len_wr by auto. lia.
+  - contradiction.
 Qed.
 
 Lemma stream_firstn o k ws : stream_from o ws -> stream_from o (firstn k ws).
 Proof.
-  revert o k; induction ws as [|w ws IH]; intros o [|k] Hs; simpl; auto.
+  revert o k; induction ws as [|[o' d|n] ws IH]; intros o [|k] Hs; cbn [firstn stream_from] in *; auto.
   destruct Hs; split; auto.
 Qed.
 
-(* the image of a file whose pending writes are consecutive from o: a byte prefix of the stream *)
+Lemma sub_trunc_stream o a b : stream_from o a -> sub_trunc a b -> b = a.
+Proof.
+  intros Hs Hb. revert o Hs. induction Hb; intros o Hs; auto.
+  - destruct w as [o' d|n]; cbn [stream_from] in Hs; [|contradiction].
+    destruct Hs as [_ Hs]. f_equal. eapply IHHb; eauto.
+  - cbn [stream_from] in Hs. contradiction.
+Qed.
+
+(* a byte prefix of a stream: the first k writes and t bytes of the next *)
+Lemma prefix_torn_stream o ws k t : stream_from o ws ->
+  exists j, j <= len (concat_w ws) /\ stream_from o (prefix_torn ws k t) /\
+            concat_w (prefix_torn ws k t) = take j (concat_w ws).
+Proof.
+  intros Hs. unfold prefix_torn.
+  assert (Hsplit: ws = firstn k ws ++ skipn k ws) by (symmetry; apply firstn_skipn).
+  destruct (nth_error ws k) as [w|] eqn:E.
+  - assert (Hk: skipn k ws = w :: skipn (S k) ws).
+    { clear -E. revert k E; induction ws as [|x ws IH]; intros [|k] E; simpl in *; try discriminate.
+      - injection E as ->. reflexivity.
+      - apply IH; auto. }
+    pose proof Hs as Hs0. rewrite Hsplit in Hs. apply stream_app in Hs as [Hs1 Hs2]. rewrite Hk in Hs2.
+    destruct w as [o' d|n]; cbn [stream_from] in Hs2; [|contradiction]. destruct Hs2 as [Hw _].
+    exists (len (concat_w (firstn k ws)) + N.min t (len d)). split; [|split].
+    + rewrite Hsplit at 2. rewrite concat_w_app, Hk. unfold concat_w at 3; cbn [map pw_data concat]. rewrite !len_app. lia.
+    + apply stream_app. split; auto. cbn [stream_from]. split; auto.
+    + rewrite concat_w_app. unfold concat_w at 2; cbn [map pw_data concat]. rewrite app_nil_r.
+      rewrite Hsplit at 3. rewrite concat_w_app, Hk. unfold concat_w at 4; cbn [map pw_data concat].
+      rewrite take_app_ge by lia.
+      replace (len (concat_w (firstn k ws)) + N.min t (len d) - len (concat_w (firstn k ws)))
+        with (N.min t (len d)) by lia.
+      f_equal. rewrite take_app_le by lia.
+      destruct (N.le_gt_cases t (len d)).
+      * replace (N.min t (len d)) with t by lia. reflexivity.
+      * replace (N.min t (len d)) with (len d) by lia. rewrite take_all. apply take_ge. lia.
+  - apply nth_error_None in E. rewrite app_nil_r. rewrite firstn_all2 by exact E.
+    exists (len (concat_w ws)). split; [lia|]. split; [exact Hs|]. rewrite take_all. reflexivity.
+Qed.
+
+(* the image of a file whose pending operations are consecutive writes from o: a byte prefix of the stream *)
 Lemma crash_image_stream f o img :
   stream_from o (pending f) -> o <= len (durable f) -> crash_image f img ->
   exists j, j <= len (concat_w (pending f)) /\ img = wr (durable f) o (take j (concat_w (pending f))).
 Proof.
-  intros Hs Ho [k [t ->]]. unfold image_of.
-  set (ws := pending f) in *.
-  assert (Hsplit: ws = firstn k ws ++ skipn k ws) by (symmetry; apply firstn_skipn).
-  destruct (nth_error ws k) as [w|] eqn:E.
-  - (* torn write k *)
-    assert (Hk: skipn k ws = w :: skipn (S k) ws).
-    { clear -E. revert k E; induction ws as [|x ws IH]; intros [|k] E; simpl in *; try discriminate.
-      - injection E as ->. reflexivity.
-      - apply IH; auto. }
-    rewrite Hsplit in Hs. apply stream_app in Hs as [Hs1 Hs2]. rewrite Hk in Hs2. simpl in Hs2.
-    destruct Hs2 as [Hw _].
-    exists (len (concat_w (firstn k ws)) + N.min t (len (snd w))). split.
-    + rewrite Hsplit at 2. rewrite concat_w_app, Hk. unfold concat_w at 3; simpl. rewrite !len_app. lia.
-    + rewrite (apply_stream _ o).
-      * f_equal. rewrite concat_w_app. unfold concat_w at 2; simpl. rewrite app_nil_r.
-        rewrite Hsplit at 3. rewrite concat_w_app, Hk. unfold concat_w at 4; simpl.
-        rewrite take_app_ge by lia.
-        replace (len (concat_w (firstn k ws)) + N.min t (len (snd w)) - len (concat_w (firstn k ws)))
-          with (N.min t (len (snd w))) by lia.
-        f_equal. rewrite take_app_le by lia.
-        destruct (N.le_gt_cases t (len (snd w))).
-        -- replace (N.min t (len (snd w))) with t by lia. reflexivity.
-        -- replace (N.min t (len (snd w))) with (len (snd w)) by lia. rewrite take_all. apply take_ge. lia.
-      * apply stream_app. split; auto. simpl. split; auto.
-      * exact Ho.
-  - apply nth_error_None in E. rewrite app_nil_r. rewrite firstn_all2 by exact E.
-    exists (len (concat_w ws)). split; [lia|]. rewrite take_all. apply apply_stream; auto.
+  intros Hs Ho (k & t & ws & Hsub & ->).
+  destruct (prefix_torn_stream o (pending f) k t Hs) as (j & Hj & Hs' & Ec).
+  rewrite (sub_trunc_stream _ _ _ Hs' Hsub).
+  exists j. split; [exact Hj|]. rewrite (apply_stream _ o) by auto. rewrite Ec. reflexivity.
+Qed.
+
+(* ... and when a truncation at o precedes the stream (the rewind that started it): the image either
+   keeps the old tail or not *)
+Lemma crash_image_trunc_stream f o ws img :
+  pending f = PT o :: ws -> stream_from o ws -> o <= len (durable f) -> crash_image f img ->
+  exists j, j <= len (concat_w ws) /\
+    (img = wr (durable f) o (take j (concat_w ws)) \/ img = take o (durable f) ++ take j (concat_w ws)).
+Proof.
+  intros Ep Hs Ho (k & t & ws' & Hsub & ->). rewrite Ep in Hsub.
+  destruct k as [|k].
+  - (* nothing, or nothing but a skipped/absent truncation *)
+    unfold prefix_torn in Hsub. cbn in Hsub. inversion Hsub; subst.
+    exists 0. split; [lia|]. left. cbn. rewrite take_0, wr_nil. reflexivity.
+  - assert (Ept: prefix_torn (PT o :: ws) (S k) t = PT o :: prefix_torn ws k t) by reflexivity.
+    rewrite Ept in Hsub.
+    destruct (prefix_torn_stream o ws k t Hs) as (j & Hj & Hs' & Ec).
+    exists j. split; [exact Hj|].
+    inversion Hsub; subst.
+    + (* truncation applied *)
+      rewrite (sub_trunc_stream _ _ _ Hs' H2). right.
+      cbn [apply_writes fold_left apply1]. fold (apply_writes (take o (durable f)) (prefix_torn ws k t)).
+      rewrite (apply_stream _ o) by (auto; rewrite len_take; lia). rewrite Ec.
+      unfold wr. rewrite take_take by lia. rewrite drop_ge by (rewrite len_take; lia).
+      rewrite app_nil_r. reflexivity.
+    + (* truncation missing *)
+      rewrite (sub_trunc_stream _ _ _ Hs' H1). left.
+      rewrite (apply_stream _ o) by auto. rewrite Ec. reflexivity.
 Qed.
 
 Lemma concat_w_tail o (b : bytes) : concat_w (tailw o b) = b.
@@ -397,13 +468,3 @@ Qed.
 
 Lemma stream_tail o o' (b : bytes) : (b <> [] -> o' = o) -> stream_from o (tailw o' b).
 Proof. destruct b; simpl; auto. intros Hh. split; auto. apply Hh. discriminate. Qed.
-
-Lemma fstream_stream_flushn o f n : stream_from o (fstream f) -> stream_from o (fstream (f_flushn f n)).
-Proof.
-  unfold fstream, f_flushn. intros Hs. destruct (take n (buf f)) as [|x d] eqn:E; [exact Hs|].
-  cbn [pending buf bufoff].
-  assert (Hb: buf f = (x :: d) ++ drop n (buf f)) by (rewrite <- E; symmetry; apply take_drop_id).
-  apply stream_app in Hs as [Hs1 Hs2]. rewrite Hb in Hs2. simpl in Hs2. destruct Hs2 as [Ho _].
-  rewrite <- app_assoc. apply stream_app. split; auto. simpl. split; auto.
-  apply stream_tail. intros _. lia.
-Qed.
